@@ -15,7 +15,7 @@ RULES = {
     "R19.2": "no other writers: outside migrate every write to either map is one half of such a pair",
     "R19.3": "views: Allowance reads ALLOWANCES[(owner, spender)]; AllAllowances ranges over ALLOWANCES.prefix(owner) and "
              "AllSpenderAllowances over ALLOWANCES_SPENDER.prefix(spender), each copying allowance/expires field-for-field",
-    "R19.5": "the rebuild gate compares versions as versions: the decision that guards the rebuild is `stored < parsed` on "
+    "R19.5": "the rebuild gate compares versions as versions: the decision that guards the rebuild is the strict `stored < parsed` on "
              "semver::Version values (the stored contract version against a parsed literal), not a comparison of strings; which "
              "literal it is remains a runtime matter",
     "R19.4": "migrate rebuilds the spender map by iterating the whole owner map and saving [(spender, owner)] := allowance",
@@ -154,11 +154,12 @@ def check_migrate(ctx, p, a, b, ALW, ALWS):
         gate = None
         good = False
         for lo, hi, strict, c in order_facts(p.conds, before=first):
-            parsed = hi[0] == "vfield" and hi[1][0] == "call" and hi[1][1].endswith("::parse")
+            parsed = (hi[0] == "vfield" and hi[1][0] == "call" and hi[1][1].endswith("::parse")) or \
+                (hi[0] == "call" and hi[1].endswith("Version::new") and all(x[0] == "lit" for x in hi[2]))     # semver::Version::new(0, 14, 0)
             stored = any(x[0] == "call" and ("ensure_from_older_version" in x[1] or "get_contract_version" in x[1]) for x in walk(lo))
             if parsed or stored:
                 gate = c[0]
-            if parsed and stored and not any(x[0] == "call" and x[1].endswith(("as_str", "to_string")) for x in walk(lo)):
+            if parsed and stored and strict and not any(x[0] == "call" and x[1].endswith(("as_str", "to_string")) for x in walk(lo)):
                 good = True
         ctx.ob("R19.5", key + "/rebuild gate", good, sites=[b[0].site],
                detail="the rebuild of the spender index is gated by %s, which is not `stored semver version < parsed semver literal`"
